@@ -3,26 +3,49 @@
 tables + call recorder), treadmill.newnet, the `socket` and `random` modules
 of treadmill.runtime, `socket.gethostbyname`, plugin_manager.
 
-Every fake is *strict*: only the functions the modules under test were seen
-to call exist; any other attribute access raises HarnessError, so nothing is
-silently skipped.  Every call is a step of the current op (`Seam.command`):
+Every fake is *strict* about I/O: only the I/O functions the modules under
+test were seen to call exist.  What does no I/O - constants, enums, exception
+classes, address conversion functions - is passed through to the real module,
+so that a correct refactoring is not flagged.  Any other attribute access is a
+harness error: it is raised AND recorded (fsseam.PENDING_HARNESS_ERRORS),
+because the repo code has broad exception handlers; the engine re-raises it
+after the op, so it ends the check with exit 2 and is never reported as a
+property violation.  Every call is a step of the current op (`Seam.command`):
 it can be the kill point of the op and it can be told to fail with
 `subproc.CalledProcessError`.
 """
 
 import errno
 
-from . import HarnessError
+import socket as real_socket
+
+from .fsseam import harness_error
 
 
 class Strict:
-    """Base: unknown attribute => HarnessError."""
+    """Base.  What does no I/O (constants, enums, exception and other
+    classes of the real module) is passed through; any other unknown
+    attribute is a harness error - recorded, so that it surfaces as exit 2
+    even when the code under test swallows the exception, and never as a
+    property violation."""
 
     _what = 'fake'
+    _real = None
 
     def __getattr__(self, name):
-        raise HarnessError('unexpected access %s.%s by the code under test' %
-                           (self._what, name))
+        if name.startswith('__'):
+            raise AttributeError(name)
+        real = self.__dict__.get('_real') or type(self)._real
+        if real is not None and not name.startswith('_') and \
+                hasattr(real, name):
+            value = getattr(real, name)
+            if isinstance(value, type) or not callable(value) or \
+                    name in self._PURE:
+                return value
+        raise harness_error('unexpected access %s.%s by the code under test'
+                            % (self._what, name))
+
+    _PURE = ()
 
 
 class FakeNetdev(Strict):
@@ -30,7 +53,8 @@ class FakeNetdev(Strict):
 
     _what = 'netdev'
 
-    def __init__(self, seam, subproc, ext_device='eth0'):
+    def __init__(self, seam, subproc, ext_device='eth0', real=None):
+        self._real = real
         self._seam = seam
         self._subproc = subproc
         self.devs = {}
@@ -183,6 +207,7 @@ class FakeIptables(Strict):
     _what = 'iptables'
 
     def __init__(self, seam, subproc, real):
+        self._real = real
         self._seam = seam
         self._subproc = subproc
         for name in dir(real):
@@ -280,7 +305,8 @@ class FakePluginManager(Strict):
     def load(self, namespace, name):
         self.asked += 1
         if namespace != 'treadmill.firewall.plugins':
-            raise HarnessError('unexpected plugin %s:%s' % (namespace, name))
+            raise harness_error('unexpected plugin %s:%s' % (namespace,
+                                                              name))
         raise KeyError('%s:%s' % (namespace, name))
 
 
@@ -323,7 +349,7 @@ class FakeSocket:
         self.closed = True
 
     def __getattr__(self, name):
-        raise HarnessError('unexpected socket.%s by the code under test' %
+        raise harness_error('unexpected socket.%s by the code under test' %
                            name)
 
 
@@ -331,16 +357,12 @@ class FakeSocketMod(Strict):
     """Stands in for the `socket` module (treadmill.runtime, _run, _finish)."""
 
     _what = 'socket'
-
-    AF_INET = 2
-    SOCK_STREAM = 1
-    SOCK_DGRAM = 2
-    SOL_SOCKET = 1
-    SO_REUSEADDR = 2
-    error = OSError
+    _real = real_socket
+    # no I/O: address conversion, byte order
+    _PURE = ('inet_aton', 'inet_ntoa', 'inet_pton', 'inet_ntop', 'htons',
+             'ntohs', 'htonl', 'ntohl')
 
     def __init__(self, dns, seam=None):
-        import socket as real_socket
         self.gaierror = real_socket.gaierror
         self._seam = seam
         self.failing = set()   # hosts the resolver cannot resolve right now
@@ -357,9 +379,16 @@ class FakeSocketMod(Strict):
         return FakeSocket(self, family, sock_type)
 
     def gethostbyname(self, host):
+        """As the real one: an IPv4 literal in any form inet_aton accepts is
+        returned in canonical dotted-quad form without asking the resolver;
+        names go through the fixed table (and the injected faults)."""
         self.lookups += 1
+        try:
+            return real_socket.inet_ntoa(real_socket.inet_aton(host))
+        except (OSError, TypeError, UnicodeError):
+            pass
         if host not in self.dns:
-            raise HarnessError('unexpected DNS lookup %r' % host)
+            raise harness_error('unexpected DNS lookup %r' % host)
         if host in self.failing:
             # injected resolver failure (EAI_NONAME / EAI_AGAIN)
             self.resolve_failures += 1
@@ -367,6 +396,16 @@ class FakeSocketMod(Strict):
                 self._seam.failed = True
             raise self.gaierror(-2, 'Name or service not known')
         return self.dns[host]
+
+    def gethostbyname_ex(self, host):
+        return (host, [], [self.gethostbyname(host)])
+
+    def getaddrinfo(self, host, port, family=0, type=0, proto=0, flags=0):
+        # pylint: disable=redefined-builtin,unused-argument
+        addr = self.gethostbyname(host)
+        kinds = [(real_socket.SOCK_STREAM, 6), (real_socket.SOCK_DGRAM, 17)]
+        return [(real_socket.AF_INET, kind, prot, '', (addr, port or 0))
+                for kind, prot in kinds if type in (0, kind)]
 
     def release(self, actor):
         """The process of `actor` died: the kernel closes its sockets."""
@@ -417,7 +456,7 @@ class FakeRandom(Strict):
     def sample(self, population, k):
         self.calls += 1
         if k != len(population):
-            raise HarnessError('random.sample(k != len(pool))')
+            raise harness_error('random.sample(k != len(pool))')
         return HotFirst(population, (self.key, self.calls), self.hot)
 
 
